@@ -33,8 +33,11 @@ using idx_t = multi::index;
 struct S4 { double a, b, c, d; };
 inline bool operator==(S4 const& x, S4 const& y) { return x.a == y.a && x.b == y.b && x.c == y.c && x.d == y.d; }
 inline bool operator!=(S4 const& x, S4 const& y) { return !(x == y); }
+struct S3 { double a, b, c; };  // 24 bytes: reinterpreting to/from std::complex<double> (16 bytes) is a NON-integral size ratio
+inline bool operator==(S3 const& x, S3 const& y) { return x.a == y.a && x.b == y.b && x.c == y.c; }
+inline bool operator!=(S3 const& x, S3 const& y) { return !(x == y); }
 using cplx = std::complex<double>;
-static_assert(sizeof(S4) == 32 && sizeof(cplx) == 16 && sizeof(int) == 4 && sizeof(unsigned) == 4, "sizes assumed by the model");
+static_assert(sizeof(S3) == 24 && sizeof(S4) == 32 && sizeof(cplx) == 16 && sizeof(int) == 4 && sizeof(unsigned) == 4, "sizes assumed by the model");
 
 constexpr int MAXD = 4;
 constexpr std::size_t BUF_BYTES = 32 * 1024;
@@ -59,6 +62,7 @@ static std::string vs(unsigned x) { return std::to_string(x); }
 static std::string vs(long x) { return std::to_string(x); }
 static std::string vs(cplx const& z) { return vs(z.real()) + "," + vs(z.imag()); }
 static std::string vs(std::complex<long double> const& z) { return vs(static_cast<double>(z.real())) + "," + vs(static_cast<double>(z.imag())); }
+static std::string vs(S3 const& s) { return vs(s.a) + "," + vs(s.b) + "," + vs(s.c); }
 static std::string vs(S4 const& s) { return vs(s.a) + "," + vs(s.b) + "," + vs(s.c) + "," + vs(s.d); }
 
 struct Ex { long first, last; long size() const { return last - first; } };
@@ -101,7 +105,7 @@ template<class V> std::string describe_val(char const* tag, V&& pv) {
 	return std::string(tag) + " " + std::to_string(R) + " | " + exts_str(exts_of(pv)) + " | " + std::to_string(vals.size()) + " : _ | " + join(vals);
 }
 // the array constructed from a projection: its extents and its elements, by index
-template<class E, class V> std::string describe_ctor(V&& pv) {
+template<class E, class V> std::string describe_ctor(V&& pv, char const* tag = "ctor") {
 	constexpr auto R = std::decay_t<V>::rank_v;
 	multi::array<E, R> arr(pv);
 	multi::array<E, R> arr2 = multi::array<E, R>(std::forward<V>(pv));
@@ -109,7 +113,7 @@ template<class E, class V> std::string describe_ctor(V&& pv) {
 	std::vector<std::string> vals;
 	walk(arr, [&](auto&& e) { vals.push_back(vs(e)); });
 	if(static_cast<long>(vals.size()) != static_cast<long>(arr.num_elements())) internal("ctor: num_elements");
-	return "ctor " + std::to_string(static_cast<int>(R)) + " | " + exts_str(exts_of(arr)) + " | " + std::to_string(vals.size()) + " : " + join(vals);
+	return std::string(tag) + " " + std::to_string(static_cast<int>(R)) + " | " + exts_str(exts_of(arr)) + " | " + std::to_string(vals.size()) + " : " + join(vals);
 }
 
 static void answer(std::string const& s) { std::fprintf(fans, "%s\n", s.c_str()); }
@@ -204,6 +208,8 @@ template<class T> AnyView<T> make_root_any(std::vector<Ex> const& ex, T* base) {
 // ---------------------------------------------------------------------------------------------- functors
 struct FValS4 { double operator()(S4 const& s) const { return s.a + 3.0 * s.c; } };
 struct FRefS4 { double& operator()(S4& s) const { return s.c; } };
+struct FValS3 { double operator()(S3 const& s) const { return s.a + 3.0 * s.c; } };
+struct FRefS3 { double& operator()(S3& s) const { return s.c; } };
 struct FValC { cplx operator()(cplx const& z) const { return std::conj(z); } };
 struct FRefC { double& operator()(cplx& z) const { return reinterpret_cast<double(&)[2]>(z)[1]; } };
 struct FValI { int operator()(int const& x) const { return 3 * x + 1; } };
@@ -212,6 +218,7 @@ struct FRefI { int& operator()(int& x) const { return x; } };
 template<class T> struct Kind;
 template<> struct Kind<S4> { using FVal = FValS4; using FRef = FRefS4; using RefT = double; static constexpr int id = 0; };
 template<> struct Kind<cplx> { using FVal = FValC; using FRef = FRefC; using RefT = double; static constexpr int id = 1; };
+template<> struct Kind<S3> { using FVal = FValS3; using FRef = FRefS3; using RefT = double; static constexpr int id = 3; };
 template<> struct Kind<int> { using FVal = FValI; using FRef = FRefI; using RefT = int; static constexpr int id = 2; };
 
 // element of `v` at canonical position `pos` (pointer), or nullptr
@@ -223,6 +230,7 @@ template<class V> auto* nth_element(V&& v, long pos) {
 }
 
 static void add_slots(S4* e, long d) { e->a += d; e->b += d; e->c += d; e->d += d; }
+static void add_slots(S3* e, long d) { e->a += d; e->b += d; e->c += d; }
 static void add_slots(cplx* e, long d) { *e += cplx{static_cast<double>(d), static_cast<double>(d)}; }
 static void add_slots(int* e, long d) { *e += static_cast<int>(d); }
 
@@ -236,12 +244,23 @@ template<class T, multi::dimensionality_type D, class MemT> void q_member(VS<T, 
 	if(ctor) answer(describe_ctor<MemT>(pm_c)); else answer(describe_ref("member", pm_m));
 }
 
-template<class U, class T, multi::dimensionality_type D> void q_reint(VS<T, D> const& s, bool ctor) {
+// `nonintegral`: sizeof(T)/sizeof(U) is not an integer either way (tags reintq / ctorq, counted separately in the evidence)
+template<class U, class T, multi::dimensionality_type D> void q_reint(VS<T, D> const& s, bool ctor, bool nonintegral = false) {
 	auto&& mv = mk(s); auto const& cv = mv;
+	char const* tag = nonintegral ? "reintq" : "reint";
 	auto&& r_m = mv.template reinterpret_array_cast<U>();
 	auto&& r_c = cv.template reinterpret_array_cast<U>();
-	same_or_internal(describe_ref("reint", r_m), describe_ref("reint", r_c), "reinterpret_array_cast const/mutable differ");
-	if(ctor) answer(describe_ctor<U>(r_c)); else answer(describe_ref("reint", r_m));
+	same_or_internal(describe_ref(tag, r_m), describe_ref(tag, r_c), "reinterpret_array_cast const/mutable differ");
+	if(ctor) answer(describe_ctor<U>(r_c, nonintegral ? "ctorq" : "ctor")); else answer(describe_ref(tag, r_m));
+}
+
+// the two assertions of layout_t::scale (and of the hand-written D = 1 overload): every stride and every offset, times
+// sizeof(T), must be divisible by the target size
+template<class T, multi::dimensionality_type D> bool admissible(VS<T, D> const& s, long sU) {
+	bool ok = true;
+	auto chk = [&](auto... x) { ((ok = ok && ((static_cast<long>(x) * static_cast<long>(sizeof(T))) % sU == 0)), ...); };
+	std::apply(chk, s.lay.strides()); std::apply(chk, s.lay.offsets());
+	return ok;
 }
 
 template<class U, class T, multi::dimensionality_type D> void q_reintn(VS<T, D> const& s, long n, bool ctor) {
@@ -331,7 +350,14 @@ template<class T, multi::dimensionality_type D> void do_query(VS<T, D> const& s,
 		if(what == "member") { double S4::*pm[4] = {&S4::a, &S4::b, &S4::c, &S4::d}; q_member(s, pm[a[0]], ctor); return; }
 		if(what == "reintn") { q_reintn<double>(s, a[1], ctor); return; }
 	}
+	if constexpr(std::is_same_v<T, S3>) {
+		if(what == "member") { double S3::*pm[3] = {&S3::a, &S3::b, &S3::c}; q_member(s, pm[a[0]], ctor); return; }
+		if(what == "reintn") { q_reintn<double>(s, a[1], ctor); return; }
+		if(what == "reint") { q_reint<double>(s, ctor); return; }
+		if(what == "reintq") { q_reint<cplx>(s, ctor, true); return; }
+	}
 	if constexpr(std::is_same_v<T, cplx>) {
+		if(what == "reintq") { q_reint<S3>(s, ctor, true); return; }
 		if(what == "reint") { q_reint<double>(s, ctor); return; }
 		if(what == "reintn") { q_reintn<double>(s, a[1], ctor); return; }
 		if(what == "real") { q_realimag(s, false, ctor); return; }
@@ -344,13 +370,30 @@ template<class T, multi::dimensionality_type D> void do_query(VS<T, D> const& s,
 }
 
 // ---------------------------------------------------------------------------------------------- generation
-template<class T> std::string gen_query(AnyView<T> const& av, int reg, Rng& rng) {
+template<class T> std::string gen_query(AnyView<T> const& av, int reg, Rng& rng, bool aligned) {
 	long n = std::visit([](auto const& s) { return static_cast<long>(mk(s).num_elements()); }, av);
 	std::string r = std::to_string(reg);
 	bool ctor = rng.coin(25);
 	auto q = [&](std::string const& what, std::string const& args) { return ctor ? "x ctor " + r + " " + what + args : "x " + what + " " + r + args; };
 	long pos = n > 0 ? rng.range(0, n - 1) : -1;
 	int c;
+	// reinterpret_array_cast<U>() with a non-integral size ratio (24 <-> 16 bytes): only when the library's own assertions hold
+	if constexpr(std::is_same_v<T, S3> || std::is_same_v<T, cplx>) {
+		long sU = std::is_same_v<T, S3> ? 16 : 24;
+		bool adm = std::visit([&](auto const& s) { return admissible(s, sU); }, av);
+		if(adm && rng.coin(aligned ? 75 : 15)) return q("reintq", " " + std::to_string(sU));
+	}
+	if constexpr(std::is_same_v<T, S3>) {
+		c = rng.pick({35, 25, 15, 10, 10, 5});
+		switch(c) {
+			case 0: return q("member", " " + std::to_string(rng.range(0, 2)));
+			case 1: return q("reintn", " 8 3");
+			case 2: return q("reint", " 8");
+			case 3: return q("xval", " " + std::to_string(pos) + " " + std::to_string(rng.range(1, 50) * 1000));
+			case 4: return "x xref " + r + " " + std::to_string(pos) + " " + std::to_string(100000 + rng.range(0, 999));
+			default: return "x ctor " + r + " conv";
+		}
+	}
 	if constexpr(std::is_same_v<T, S4>) {
 		c = rng.pick({40, 25, 15, 12, 4, 4});
 		switch(c) {
@@ -387,25 +430,34 @@ template<class T> std::string gen_query(AnyView<T> const& av, int reg, Rng& rng)
 
 static std::vector<std::string> words(std::string const& line) { std::istringstream is(line); std::vector<std::string> w; std::string t; while(is >> t) w.push_back(t); return w; }
 
-template<class T> void emit_query(AnyView<T> const& av, int reg, Rng& rng) {
-	std::string line = gen_query<T>(av, reg, rng);
+template<class T> void emit_query(AnyView<T> const& av, int reg, Rng& rng, bool aligned = false) {
+	std::string line = gen_query<T>(av, reg, rng, aligned);
 	std::fprintf(fprog, "%s\n", line.c_str());
 	std::fflush(fprog); std::fflush(fans);  // a crash inside the library must leave the crashing program on disk
 	auto w = words(line);
 	std::visit([&](auto const& s) { do_query(s, w); }, av);
 }
 
-template<class T> void gen_program(Rng& rng, long p, std::uint64_t seed) {
-	char const* names[3] = {"s4", "cplx", "int"};
+// `m` > 0: every dimension of the view gets stride and offset divisible by `m` (extents and index bases multiples of `m`, then
+// `strided m` in every dimension); every operation of the generator preserves that, so the non-integral casts stay admissible
+template<class T> void gen_program(Rng& rng, long p, std::uint64_t seed, long m = 0) {
+	char const* names[4] = {"s4", "cplx", "int", "s3"};
 	fill_buffer(Kind<T>::id);
-	int D = 1 + rng.pick({25, 40, 25, 10});
+	int D = 1 + (m > 0 ? rng.pick({15, 40, 30, 15}) : rng.pick({25, 40, 25, 10}));
 	bool rebased = rng.coin(50);  // index bases other than 0 (casts scale the offset too)
 	std::vector<Ex> ex; long ne = 1;
 	for(int k = 0; k < D; ++k) {
-		long sz = (long[]){0, 1, 2, 3, 4, 5, 6}[rng.pick({8, 14, 22, 20, 18, 10, 8})];
-		if(ne * sz > 200) sz = 2;
+		long sz, f;
+		if(m > 0) {
+			sz = m * (long[]){0, 1, 2, 3}[rng.pick({3, 27, 42, 28})];
+			if(ne * sz > 420) sz = m;
+			f = rebased ? m * rng.range(-1, 1) : 0;
+		} else {
+			sz = (long[]){0, 1, 2, 3, 4, 5, 6}[rng.pick({8, 14, 22, 20, 18, 10, 8})];
+			if(ne * sz > 200) sz = 2;
+			f = rebased ? rng.range(-3, 3) : 0;
+		}
 		ne *= sz;
-		long f = rebased ? rng.range(-3, 3) : 0;
 		ex.push_back(Ex{f, f + sz});
 	}
 	long base = 16 + rng.range(0, 9);
@@ -415,27 +467,34 @@ template<class T> void gen_program(Rng& rng, long p, std::uint64_t seed) {
 	for(auto const& e : ex) rl += " " + std::to_string(e.first) + " " + std::to_string(e.last);
 	std::fprintf(fprog, "%s\n", rl.c_str());
 	AnyView<T> cur = make_root_any<T>(ex, reinterpret_cast<T*>(g_buf) + base);
-	if(rng.coin(30)) emit_query<T>(cur, 0, rng);
-	int nops = static_cast<int>(rng.range(0, 5));
 	int src = 0;
+	auto emit = [&](Op const& op) {
+		std::fprintf(fprog, "%s\n", op_line(1, src, op).c_str());
+		cur = std::visit([&](auto const& s) { return apply_op(s, op); }, cur);
+		src = 1;
+	};
+	if(m > 0) { for(int k = 0; k < D; ++k) { emit(Op{"strided", {m}}); if(D > 1) emit(Op{"rotated", {}}); } }
+	if(rng.coin(30)) emit_query<T>(cur, src, rng, m > 0);
+	int nops = static_cast<int>(rng.range(0, 5));
 	for(int k = 0; k < nops; ++k) {
 		Op op;
 		bool ok = std::visit([&](auto const& s) { return gen_op(s, rng, op); }, cur);
 		if(!ok) break;
-		std::fprintf(fprog, "%s\n", op_line(1, src, op).c_str());
-		cur = std::visit([&](auto const& s) { return apply_op(s, op); }, cur);
-		src = 1;
-		if(rng.coin(25)) emit_query<T>(cur, 1, rng);
+		emit(op);
+		if(rng.coin(25)) emit_query<T>(cur, 1, rng, m > 0);
 	}
 	int nq = static_cast<int>(rng.range(1, 3));
-	for(int k = 0; k < nq; ++k) emit_query<T>(cur, src, rng);
+	for(int k = 0; k < nq; ++k) emit_query<T>(cur, src, rng, m > 0);
 }
 
 static void run_generated(std::uint64_t seed, long nprog, std::string const& mode) {
 	Rng rng(seed);
 	for(long p = 0; p < nprog; ++p) {
-		int kind = mode == "s4" ? 0 : mode == "cplx" ? 1 : mode == "int" ? 2 : rng.pick({40, 35, 25});
-		if(kind == 0) gen_program<S4>(rng, p, seed); else if(kind == 1) gen_program<cplx>(rng, p, seed); else gen_program<int>(rng, p, seed);
+		int kind = mode == "s4" ? 0 : mode == "cplx" ? 1 : mode == "int" ? 2 : mode == "s3" ? 3 : rng.pick({30, 30, 18, 22});
+		if(kind == 0) gen_program<S4>(rng, p, seed);
+		else if(kind == 1) gen_program<cplx>(rng, p, seed, rng.coin(35) ? 3 : 0);   // strides/offsets multiples of 3: 16 -> 24 bytes admissible
+		else if(kind == 2) gen_program<int>(rng, p, seed);
+		else gen_program<S3>(rng, p, seed, rng.coin(70) ? 2 : 0);                    // even strides/offsets: 24 -> 16 bytes admissible
 	}
 }
 
@@ -446,14 +505,14 @@ static void run_replay(char const* path) {
 	std::ifstream in(path);
 	std::string line;
 	int kind = 0;
-	Regs<S4> rs; Regs<cplx> rc; Regs<int> ri;
-	auto with = [&](auto&& f) { if(kind == 0) f(rs); else if(kind == 1) f(rc); else f(ri); };
+	Regs<S4> rs; Regs<cplx> rc; Regs<int> ri; Regs<S3> r3;
+	auto with = [&](auto&& f) { if(kind == 0) f(rs); else if(kind == 1) f(rc); else if(kind == 2) f(ri); else f(r3); };
 	while(std::getline(in, line)) {
 		std::fprintf(fprog, "%s\n", line.c_str());
 		auto w = words(line);
 		if(w.empty() || w[0] == "#") continue;
 		if(w[0] == "prog") { std::fprintf(fans, "%s\n", line.c_str()); continue; }
-		if(w[0] == "t") { kind = w[1] == "s4" ? 0 : w[1] == "cplx" ? 1 : 2; fill_buffer(kind); continue; }
+		if(w[0] == "t") { kind = w[1] == "s4" ? 0 : w[1] == "cplx" ? 1 : w[1] == "int" ? 2 : 3; fill_buffer(kind); continue; }
 		if(w[0] == "root") {
 			int reg = std::stoi(w[1]); long base = std::stol(w[2]); int D = std::stoi(w[3]);
 			std::vector<Ex> ex;
@@ -472,7 +531,7 @@ static void run_replay(char const* path) {
 }
 
 int main(int argc, char** argv) {
-	if(argc < 6) { std::fprintf(stderr, "usage: casts <seed> <nprograms> <s4|cplx|int|mix> <prog-out> <answers-out> [--replay file]\n"); return 2; }
+	if(argc < 6) { std::fprintf(stderr, "usage: casts <seed> <nprograms> <s4|cplx|int|s3|mix> <prog-out> <answers-out> [--replay file]\n"); return 2; }
 	std::uint64_t seed = std::strtoull(argv[1], nullptr, 10);
 	long nprog = std::strtol(argv[2], nullptr, 10);
 	fprog = std::fopen(argv[4], "w"); fans = std::fopen(argv[5], "w");
